@@ -477,4 +477,31 @@ fn random_case(args: &Args, rep: &mut Report, st: &mut Stats, i: u64, verbose: b
         }
         Err(w) => report_violation(rep, args, &w, &reference, &target, mm, &format!("rand:{}", i)),
     }
+    // the compressor keeps one encoder per group and feeds it one segment after the other
+    if rng.chance(1, 4) && target.len() < 5000 {
+        let more: Vec<Vec<u8>> = (0..rng.usize(1, 3))
+            .map(|_| {
+                let mut t = match rng.below(4) {
+                    0 => reference.clone(),
+                    1 => mutate(&mut rng, &target, allow30),
+                    _ => mutate(&mut rng, &reference, allow30),
+                };
+                if t.is_empty() {
+                    t.push(rng.below(4) as u8);
+                }
+                t
+            })
+            .collect();
+        let mut all: Vec<&[u8]> = vec![&target[..]];
+        all.extend(more.iter().map(|t| &t[..]));
+        rep.evaluations += 1;
+        match check_sequence(&reference, &all, mm) {
+            Ok(_) => rep.count("encoder_instances_reused_for_several_targets", 1),
+            Err(w) => {
+                // report against the target that failed (the last one for a panic)
+                let idx = w.rsplit("(target ").next().and_then(|x| x.split(' ').next()).and_then(|x| x.parse::<usize>().ok()).map(|x| x - 1).unwrap_or(all.len() - 1);
+                report_violation(rep, args, &w, &reference, all[idx.min(all.len() - 1)], mm, &format!("rand:{}", i))
+            }
+        }
+    }
 }
